@@ -1224,7 +1224,7 @@ func main() {
 		fmt.Fprintln(os.Stderr, "need -out")
 		os.Exit(2)
 	}
-	w, err := casefile.New(*out, "C10", "From Coq Require Import Uint63.\nFrom C10 Require Import Model Spec CaseDefs.", 250)
+	w, err := casefile.New(*out, "C10", "From Coq Require Import Uint63.\nFrom C10 Require Import Model ModelMeta Spec CaseDefs.", 250)
 	if err != nil {
 		panic(err)
 	}
